@@ -26,9 +26,9 @@ def plan(tier, seed):
     jobs = []
     for v in ("c", "py"):
         jobs.append({"variant": v, "part": "kernel", "params": {}})
-    nr = 12 if thorough else 6
+    nr = 16 if thorough else 6
     for s in range(nr):
-        jobs.append({"variant": "c" if s % 2 else "py", "part": "random", "shard": s, "nshards": nr, "params": {"n": 120000 if thorough else 10000}})
+        jobs.append({"variant": "c" if s % 2 else "py", "part": "random", "shard": s, "nshards": nr, "params": {"n": 400000 if thorough else 10000}})
     return jobs
 
 
